@@ -96,10 +96,12 @@ Proof. reflexivity. Qed.
 
 Lemma K_dyn : forall d x s,
   K TIface (VDyn d x) s =
-  match K (d_shape d) x s with
-  | (Some k, s') => (Some (KStr (pre d ++ DOLLAR :: key_str k)), s')
-  | (None, s') => (None, s')
-  end.
+  if comparable (d_shape d) then
+    match K (d_shape d) x s with
+    | (Some k, s') => (Some (KStr (pre d ++ DOLLAR :: key_str k)), s')
+    | (None, s') => (None, s')
+    end
+  else (None, s).
 Proof. reflexivity. Qed.
 
 Lemma K_float : forall f s, K TFloat (VFloat f) s = (let (k, s') := float_key nts f s in (Some (KStr k), s')).
@@ -184,7 +186,8 @@ Proof.
     destruct (id_key r u) as [k0 u0] eqn:E. injection HK as <- <-.
     destruct (id_key_spec _ _ _ _ W E) as (A & B & _). now split.
   - (* dyn *) destruct t; try (cbn in HK; injection HK as <- <-; split; [auto | apply sle_refl]).
-    rewrite K_dyn in HK. destruct (K (d_shape d) x u) as [[k0|] u0] eqn:E;
+    rewrite K_dyn in HK. destruct (comparable (d_shape d)); [|injection HK as <- <-; split; [auto | apply sle_refl]].
+    destruct (K (d_shape d) x u) as [[k0|] u0] eqn:E;
       injection HK as <- <-; eapply IHx; eauto.
   - (* arr *) destruct t; try (cbn in HK; injection HK as <- <-; split; [auto | apply sle_refl]).
     rewrite K_arr in HK. destruct (comparable t); [|injection HK as <- <-; split; [auto | apply sle_refl]].
@@ -460,15 +463,18 @@ Proof.
   - (* nil *)
     destruct t; cbn in Wx; try discriminate Wx. destruct y; cbn in Wy; try discriminate Wy.
     + cbn in Ha, Hb. injection Ha as <- <-. injection Hb as <- <-. cbn. tauto.
-    + rewrite K_dyn in Hb. destruct (K (d_shape d) y u2) as [[k|] ?]; [|discriminate]. injection Hb as <- <-.
+    + rewrite K_dyn in Hb. destruct (comparable (d_shape d)); [|discriminate].
+      destruct (K (d_shape d) y u2) as [[k|] ?]; [|discriminate]. injection Hb as <- <-.
       cbn [key_for] in Ha. injection Ha as <- <-. cbn [key_str go_eq]. split; [|discriminate].
       intros E. exfalso. eapply dollar_not_plain. rewrite <- E. apply plain_of_string_nil.
   - (* dyn *)
     destruct t; cbn [wt] in Wx; try discriminate Wx. destruct y; cbn [wt] in Wy; try discriminate Wy.
-    + rewrite K_dyn in Ha. destruct (K (d_shape d) x u0) as [[k|] ?]; [|discriminate]. injection Ha as <- <-.
+    + rewrite K_dyn in Ha. destruct (comparable (d_shape d)); [|discriminate].
+      destruct (K (d_shape d) x u0) as [[k|] ?]; [|discriminate]. injection Ha as <- <-.
       cbn [key_for] in Hb. injection Hb as <- <-. cbn [key_str go_eq]. split; [|discriminate].
       intros E. exfalso. eapply dollar_not_plain. rewrite E. apply plain_of_string_nil.
     + rewrite K_dyn in Ha, Hb.
+      destruct (comparable (d_shape d)); [|discriminate]. destruct (comparable (d_shape d0)); [|discriminate].
       destruct (K (d_shape d) x u0) as [[k|] w1] eqn:E1; [|discriminate].
       destruct (K (d_shape d0) y u2) as [[k'|] w2] eqn:E2; [|discriminate].
       injection Ha as <- <-. injection Hb as <- <-.
@@ -529,7 +535,8 @@ Proof.
   - destruct (float_key nts f s). injection H as <- _. eauto.
   - destruct (float_key nts re s) as [? s1]. destruct (float_key nts im s1). injection H as <- _. eauto.
   - destruct (id_key r s). injection H as <- _. eauto.
-  - destruct (key_for nts by_id (d_shape d) x s) as [[?|] ?]; [|discriminate]. injection H as <- _. eauto.
+  - destruct (comparable (d_shape d)); [|discriminate].
+    destruct (key_for nts by_id (d_shape d) x s) as [[?|] ?]; [|discriminate]. injection H as <- _. eauto.
   - destruct (comparable t); [|discriminate]. destruct (keys_arr _ _ l s) as [[?|] ?]; [|discriminate]. injection H as <- _. eauto.
   - destruct (keys_struct _ _ fs l s) as [[?|] ?]; [|discriminate]. injection H as <- _. eauto.
 Qed.
